@@ -368,6 +368,26 @@ func runScenario(sc scenario) {
 	for i := 0; i < initial; i++ {
 		readers = append(readers, newReader(i))
 	}
+	// one bystander sets up only the last media of a multi-media stream: packets of the other
+	// medias are not for it, and its presence must not cost the other readers anything. Its own
+	// deliveries are not checked (it is not drained either).
+	var bystander *rig.PlayClient
+	if len(sc.Formats) >= 2 && sc.Transport != "mcast" {
+		o := sc.clientOpts(sc.Name+"-partial", 0)
+		o.Path = streamPath
+		o.OnlyMedias = []int{len(sc.Formats) - 1}
+		if pc, err := rig.NewPlayClient(ts, o); err == nil {
+			if err := pc.Start(); err == nil {
+				bystander = pc
+				run.Count("partial-readers-alongside", 1)
+			}
+		}
+	}
+	defer func() {
+		if bystander != nil {
+			bystander.Close()
+		}
+	}()
 	// interleaved TCP: one more reader is a raw peer that keeps sending in-session requests while
 	// the media flows (responses and frames share its connection)
 	var chatty *chattyReader
@@ -618,6 +638,9 @@ func runScenario(sc scenario) {
 		for _, f := range fs {
 			fail(f.Key, fmt.Sprintf("reader %s: %s", chatty.name, f.What), f.Detail)
 		}
+	}
+	if bystander != nil {
+		bystander.Close()
 	}
 	if pub != nil {
 		pub.C.Close()
